@@ -196,6 +196,13 @@ Arguments AnyVal {A} value_len c.
 (** Go [msg.X.Value] on a *Any: nil pointer dereference when the field is nil *)
 Definition any_value_len {A} (a : AnyP A) : res N :=
   match a with AnyNil => Panic | AnyVal n _ => Ok n end.
+(** Go [a != nil && len(a.Value) > max]: the dereference sits behind the nil test (fix e3d0037; before it
+    MsgCreateClient read [len(msg.ClientState.Value)] unconditionally) *)
+Definition any_too_large {A} (a : AnyP A) (max : N) : res bool :=
+  match a with
+  | AnyNil => Ok false
+  | _ => do n <- any_value_len a; Ok (max <? n)
+  end.
 (** UnpackClientState / UnpackConsensusState / UnpackClientMessage: nil check, then checked assertion *)
 Definition unpack {A} (a : AnyP A) : res A :=
   match a with
@@ -232,13 +239,13 @@ Definition msg_client_validate_basic (m : MsgClient) : res unit :=
   match m with
   | CreateClient sg cs cst =>
       do _ <- signer_check sg;
-      do n <- any_value_len cs;                       (* len(msg.ClientState.Value): BEFORE the nil check *)
-      if 32768 <? n then Err
+      do big <- any_too_large cs 32768;            (* msg.ClientState != nil && len(msg.ClientState.Value) > Max *)
+      if big then Err
       else
-        do clientState <- unpack cs;
+        do clientState <- unpack cs;                 (* a nil Any is rejected here *)
         do _ <- cs_validate clientState;
-        do n2 <- any_value_len cst;                  (* len(msg.ConsensusState.Value): BEFORE the nil check *)
-        if 32768 <? n2 then Err
+        do big2 <- any_too_large cst 32768;
+        if big2 then Err
         else
           do consensusState <- unpack cst;
           if negb (bytes_eqb (cs_type clientState) (cs_type consensusState)) then Err
@@ -272,7 +279,30 @@ Definition msg_client_validate_basic (m : MsgClient) : res unit :=
       if v then Ok tt else Err
   end.
 
-(** the Any fields a message dereferences without a nil check *)
+(** ---------------------------------------------------------------- 06-solomachine/misbehaviour.go *)
+Record SigData := mkSD { sd_sig : bytes; sd_data : bytes; sd_path : bytes; sd_ts : N }.
+(** SignatureAndData.ValidateBasic *)
+Definition sig_data_validate_basic (sd : SigData) : res unit :=
+  if nlen (sd_sig sd) =? 0 then Err
+  else if nlen (sd_data sd) =? 0 then Err
+  else if nlen (sd_path sd) =? 0 then Err
+  else if sd_ts sd =? 0 then Err
+  else Ok tt.
+Definition ptr_deref {A} (p : option A) : res A := match p with Some a => Ok a | None => Panic end.
+Definition is_nil {A} (p : option A) : bool := match p with None => true | Some _ => false end.
+(** Misbehaviour.ValidateBasic: SignatureOne / SignatureTwo are pointers (nullable); the nil test was added
+    by fix 6331512 *)
+Definition solo_misbehaviour_validate_basic (seq : N) (s1 s2 : option SigData) : res unit :=
+  if seq =? 0 then Err
+  else if is_nil s1 || is_nil s2 then Err
+  else
+    do a <- ptr_deref s1; do _ <- sig_data_validate_basic a;
+    do b <- ptr_deref s2; do _ <- sig_data_validate_basic b;
+    if bytes_eqb (sd_sig a) (sd_sig b) then Err
+    else if bytes_eqb (sd_path a) (sd_path b) && bytes_eqb (sd_data a) (sd_data b) then Err
+    else Ok tt.
+
+(** the Any fields a message dereferences without a nil check (none since fix e3d0037) *)
 Definition msg_client_derefs_ok (m : MsgClient) : bool :=
   match m with
   | CreateClient _ cs cst =>
